@@ -19,7 +19,8 @@ theorem CAtom.ok_of {s : Scheme} {name : List Char} {path : List Ix} {tail : Tai
     (hpath : path.all Ix.ok = true) (htail : tail.ok = true)
     (hfield : fieldPathTy s name (path.map Ix.val) tail.ty = true)
     (hj : path ≠ [] ∨ (tail.sepFromName = true ∧
-      (tail = .isTrue → name ≠ "any".toList ∧ name ≠ "all".toList))) :
+      (tail = .isTrue → name ≠ "any".toList ∧ name ≠ "all".toList)))
+    (hsch : tail.schemeOk s = true := by rfl) :
     (CAtom.mk name path tail).ok s = true := by
   have e0 : (name != "not".toList) = true := bne_iff_ne.mpr hnot
   have hjb : (CAtom.mk name path tail).junctionOk = true := by
@@ -35,7 +36,7 @@ theorem CAtom.ok_of {s : Scheme} {name : List Char} {path : List Ix} {tail : Tai
         simp
       · simp [CAtom.junctionOk, h1, ht]
   simp only [CAtom.ok, nameGood]
-  rw [hname, e0, hpath, htail, hfield, hjb]
+  rw [hname, e0, hpath, htail, hfield, hjb, hsch]
   rfl
 
 /-! ### ill-typed paths -/
@@ -95,5 +96,27 @@ theorem comparisonL_illtyped (env : PEnv) (lower : Option Level) {name more : In
   unfold comparisonL indexExprL
   rw [lexIdentifier_name_ns env.scheme hn hns]
   simp only [hget, he]
+
+/-! ### `in $name` needs a registered list -/
+
+/-- without a list registered for the left-hand side's type `in $…` is an error, whatever the
+name is -/
+theorem inList_unregistered (env : PEnv) (lhs : IExpr) (ty : Ty)
+    (hty : ty = .int ∨ ty = .ip ∨ ty = .bytes) (hnone : env.scheme.getList ty = none)
+    (ws₁ ws₂ : Input) (h₁ : Layout ws₁ = true) (h₂ : Layout ws₂ = true) (listName rest : Input) :
+    ∃ e, cmpWithLhs env lhs ty (ws₁ ++ ("in".toList ++ (ws₂ ++ ('$' :: (listName ++ rest))))) =
+      .error e := by
+  have e1 : skipSpace (ws₁ ++ ("in".toList ++ (ws₂ ++ ('$' :: (listName ++ rest))))) =
+      "in".toList ++ (ws₂ ++ ('$' :: (listName ++ rest))) :=
+    skipSpace_layout_solid h₁ ⟨'i', _, rfl, by decide⟩
+  have e3 : skipSpace (ws₂ ++ ('$' :: (listName ++ rest))) = '$' :: (listName ++ rest) :=
+    skipSpace_layout_solid h₂ ⟨'$', _, rfl, by decide⟩
+  have e4 : expect ('$' :: (listName ++ rest)) "$" = some (listName ++ rest) := by
+    show stripPrefix ('$' :: _) ['$'] = _
+    simp [stripPrefix]
+  unfold cmpWithLhs
+  rcases hty with rfl | rfl | rfl <;>
+    (simp only [e1, lexEnum_in, e3, e4, hnone]
+     cases lexListName ('$' :: (listName ++ rest)) <;> simp [Ty.next, errSpan_eq])
 
 end WfModel.Atoms
